@@ -187,3 +187,12 @@ package gzip
 //@ // against exactly that contract (safety and an empty frame), so that assumption is a proved fact
 //@ use @verif/specs/stdlib.spec:stdlib
 //@ func putWriter
+
+//@ unit small_helpers frames=on props=C18,C11 nilchecks=on filter=`gzip\.NewResponseFilterWriter$|gzip\.Set\)\.(Add|Contains|ContainsFunc)$`
+//@ // what gzip_handler and gzip_parse assume of these, proved
+//@ func NewResponseFilterWriter
+//@   ensures result != nil && result.gzipResponseWriter == gz && !result.shouldCompress
+//@ func (Set).Add
+//@   requires s != nil
+//@   modifies MV:map[string]struct{}, MD:map[string]struct{}
+//@   ensures has(s, value)
